@@ -50,6 +50,21 @@ Theorem C11_model_is_source_merge_min_smooth_plates : forall min_size rows ds fu
 Proof. exact src_merge_min_is_model. Qed.
 Print Assumptions C11_model_is_source_merge_min_smooth_plates.
 
+(* MergeTopBottomPlateSmoother._get_plate_sample_id (same text as MergeMin's, translated on its own) *)
+Theorem C11_model_is_source_merge_tb_get_plate_sample_id : forall rows p,
+  src_merge_tb_get_plate_sample_id rows (plate_vec p rows) = plate_sample p rows.
+Proof. exact src_tb_get_plate_sample_id_is_model. Qed.
+Print Assumptions C11_model_is_source_merge_tb_get_plate_sample_id.
+
+(* MergeTopBottomPlateSmoother._smooth_plates (retrospective.py): the loop over the samples, `for i in
+   range(self.n_iterations)` with its `break` at <= 1 plates, the comprehension, the sort by size, halfway =
+   floor(len / 2), the zip of the first half with the reversed list's first half, bigger.merge(smaller) for each
+   pair - equal to the model for every n_iterations and screen (no fuel: both loops are `for` loops) *)
+Theorem C11_model_is_source_merge_tb_smooth_plates : forall n_iter rows,
+  src_merge_tb_smooth_plates n_iter rows = merge_tb n_iter rows.
+Proof. exact src_merge_tb_is_model. Qed.
+Print Assumptions C11_model_is_source_merge_tb_smooth_plates.
+
 (* create_plate_balanced_holdout_set_among_masked_plates (retrospective.py): the range check and its raise, the
    all-false selection vector, the loop over the plates, `if plate.is_observed: continue`, the count
    math.ceil(plate.size * fraction), the rng.choice of that many of the plate's indices, the update
